@@ -85,6 +85,51 @@ def save_replay(pid, runno, job, excerpt, why):
     json.dump({"property": pid, "why": why, "kind": "life", "job": job, "trace": excerpt}, open(p, "w"))
     return p
 
+def conformance(files, wd, cap_lines=0):
+    """Group the recorded runs by the design instance whose scenario they ran (tag tlc:<name> / rnd:<name>) and check
+    each group against CF_<name> (Trampoline.tla driven by the trace)."""
+    groups = {}
+    for f in files:
+        cur = None
+        for line in open(f):
+            if line.startswith('{"cfg"') or '"ev":"reset"' in line[:400]:
+                o = json.loads(line)
+                tag = o.get("tag", "")
+                cur = tag.split(":", 1)[1] if tag.startswith(("tlc:", "rnd:")) else None
+                if cur is not None and not os.path.exists(f"{VERIF}/spec/mc/CF_{cur}.tla"):
+                    cur = None
+            if cur is not None:
+                groups.setdefault(cur, []).append(line)
+    res = {}
+    from concurrent.futures import ThreadPoolExecutor
+    tasks = []
+    for name, lines in groups.items():
+        if cap_lines and len(lines) > cap_lines:
+            # conformance is checked on a prefix of the runs (all of them in the thorough tier)
+            cut = max(k for k, ln in enumerate(lines[:cap_lines]) if '"ev":"reset"' in ln[:400])
+            lines = lines[:cut]
+        # split at run boundaries into up to 4 files
+        starts = [k for k, ln in enumerate(lines) if '"ev":"reset"' in ln[:400]]
+        nchunks = min(4, max(1, len(starts) // 50))
+        bounds = [starts[(len(starts) * c) // nchunks] for c in range(nchunks)] + [len(lines)]
+        for c in range(nchunks):
+            pth = f"{wd}/cf_{name}_{c}.ndjson"
+            with open(pth, "w") as fo:
+                fo.writelines(lines[bounds[c]:bounds[c + 1]])
+            tasks.append((name, pth, c))
+        res[name] = {"runs": len(starts), "lines": len(lines), "drift": []}
+    def one(t):
+        name, pth, c = t
+        ok, drifts, out = run.conform(name, pth, f"{wd}/cfm_{name}_{c}")
+        if not ok:
+            raise run.ToolError(f"conformance run of CF_{name} failed:\n" + out[-2500:])
+        ls = open(pth).read().splitlines()
+        return name, [(ln, evn, ls[ln - 1][:300]) for (ln, evn) in drifts]
+    with ThreadPoolExecutor(max_workers=12) as ex:
+        for name, dr in ex.map(one, tasks):
+            res[name]["drift"] += dr
+    return res
+
 def check_life(pid, tier, seed):
     t0 = time.time()
     known = load_known()
@@ -94,19 +139,37 @@ def check_life(pid, tier, seed):
     run.cargo_build()
     spec = life.LIFE[pid]
     thorough = tier == "thorough"
-    # 1. design verdict: TLC on the bounded instances
-    gen = dist = 0
-    mstats = {}
-    for name in spec["models"] + (spec["tmodels"] if thorough else []):
-        g, d, _ = life.tlc_design(name, models.ALLPROPS, wd, 3000 if thorough else 600, workers=14, seed=seed)
-        gen += g; dist += d; mstats[name] = {"generated": g, "distinct": d}
-    # 2. schedules (TLC edges + random), executed on the real code
-    jobs, sstats = life.build_jobs(pid, tier, seed, wd)
+    # 1+2. design verdict (TLC on the bounded instances) and schedules (TLC edges + random) for the real code
+    jobs, sstats, mstats = life.build_jobs(pid, tier, seed, wd)
+    gen = sum(x["generated"] for x in mstats.values()); dist = sum(x["distinct"] for x in mstats.values())
     files = run.run_harness(jobs, wd + "/h")
     # 3. implementation verdict: Observer on every recorded trace
     viol, nlines = run.observe(files, wd + "/o")
     bad, kn = judge(pid, viol, known)
     byrun = {j["run"]: j for j in jobs}
+    # 3b. amplification: a run in which ANOTHER predicate failed is a lead.  It is executed again with an epilogue
+    #     before the drain (crash + replay of every HTLC / a further fully funding set) and judged for this property.
+    leads = [r for r, (pre, post, kf) in viol.items() if pid not in pre and pid not in post and not kf and (pre | post) - {"PAYSHAPE"}]
+    amplified = 0
+    if leads and not bad:
+        ajobs = []
+        for r in sorted(leads)[:150]:
+            for epi in (["crash_replay"], ["probe"], ["crash_replay", "probe"]):
+                j = json.loads(json.dumps(byrun[r])); j["run"] = 1000000 + len(ajobs) + 1; j["epilogue"] = epi
+                j["tag"] = "amplified:" + j.get("tag", "")
+                ajobs.append(j)
+        afiles = run.run_harness(ajobs, wd + "/ha")
+        aviol, al = run.observe(afiles, wd + "/oa")
+        abad, akn = judge(pid, aviol, known)
+        amplified = len(ajobs)
+        for j in ajobs:
+            byrun[j["run"]] = j
+        bad += abad; kn += akn; files = files + afiles; nlines += al; jobs = jobs + ajobs
+    # 4. conformance verdict: the recorded runs of the instances' scenarios must be behaviours of Trampoline.tla
+    conf = conformance(files, wd, 0 if thorough else 60000)
+    for name, st in conf.items():
+        for (ln, evn, excerpt) in st["drift"][:2]:
+            print(f"DRIFT: instance {name}: the real code took a step Trampoline.tla cannot explain: {excerpt}")
     # how faithfully the real code followed the schedules TLC generated from the design
     div_runs = div_steps = 0
     for f in files:
@@ -125,7 +188,9 @@ def check_life(pid, tier, seed):
                         "trace_head": trace_excerpt(files, j["run"], 12)})
     cov = {"states": dist, "transitions": gen, "traces_validated_against_impl": len(jobs), "samples": samples,
            "design_instances": mstats, "tlc_schedules_replayed": sstats, "random_schedules": len(jobs) - sum(sstats.values()),
-           "trace_lines_judged": nlines, "known_finding_runs": len(kn), "exhaustive": False,
+           "trace_lines_judged": nlines, "known_finding_runs": len(kn), "exhaustive": False, "amplified_runs": amplified,
+           "conformance": {n: {"runs": st["runs"], "lines": st["lines"], "drift_lines": len(st["drift"]),
+                               "verdict": "accepted" if not st["drift"] else "drift"} for n, st in conf.items()},
            "tlc_schedules_with_inapplicable_steps": div_runs, "inapplicable_steps": div_steps,
            "rule": "design: every reachable state of each bounded instance (exhaustive within its constants); "
                    "implementation: one run per TLC-sampled edge schedule plus seeded random schedules, each judged line by line"}
@@ -187,10 +252,8 @@ def check_c12(tier, seed):
         for idx, text in run.tagged(out, "FEEVIOL"):
             bad.append((o, idx, json.loads(lines[idx - 1])))
     # lifecycle clauses (failure carries the policy; first HTLC of a fresh payment)
-    jobs, sstats = life.build_jobs(pid, tier, seed, wd)
-    for name in life.LIFE[pid]["models"]:
-        g2, d2, _ = life.tlc_design(name, models.ALLPROPS, wd, 900, workers=14, seed=seed)
-        g += g2; d += d2
+    jobs, sstats, mstats = life.build_jobs(pid, tier, seed, wd)
+    g += sum(x["generated"] for x in mstats.values()); d += sum(x["distinct"] for x in mstats.values())
     files = run.run_harness(jobs, wd + "/h")
     viol, ll = run.observe(files, wd + "/o")
     lbad, kn = judge(pid, viol, known)
